@@ -9,14 +9,21 @@ from ..core import Ctx
 
 THEOREMS = ["Visitor.prune_meaning", "Visitor.escape_iff", "Visitor.nested", "Visitor.balanced",
             "Visitor.main_trace", "Visitor.enter_once", "Visitor.order_visit", "Visitor.order_depart",
-            "Visitor.builder_stack_empty", "Visitor.dispatch_same_family", "Visitor.dispatch_unpaired_counterexample"]
+            "Visitor.builder_stack_empty", "Visitor.dispatch_same_family", "Visitor.dispatch_unpaired_counterexample",
+            "Visitor.general_walk_partial", "Visitor.balanced_general_partial",
+            "Visitor.departure_prune_unbalanced_counterexample", "Visitor.departure_prune_escape_counterexample",
+            "Visitor.inline_visit_unbalanced_counterexample", "Visitor.inline_visit_order_counterexample"]
 RULE = ("exhaustive: every ordered tree of <=4 nodes (9 shapes) x every assignment of the 5 pruning actions x every "
         "subset of the 4 timings (one extension each) run through the real pydoctor.visitor.Visitor.walkabout/walk and "
         "through the Lean model; plus random trees of 5-9 nodes with repeated timings; plus the real ASTBuilder on "
-        "generated modules. Non-trivial = at least one node prunes and at least one extension is registered "
+        "generated modules WITH one tracing extension per timing that records every node it is handed (expression "
+        "statements included); every tree of <=3 nodes x every visit action x one node whose depart_ raises x timing sets "
+        "(+ random trees where several departures raise); small packages whose modules are processed from inside each "
+        "other with re-exports (oracle only). Non-trivial = at least one node prunes and at least one extension is registered "
         "(visitor stream) / module contains a scope the builder refuses (SkipNode) or a nested scope (builder stream).")
 ASSUMPTIONS = [
-    "pruning exceptions are raised by the main visitor's visit_* methods only (the property's quantifier); extensions do not raise",
+    "pruning exceptions are raised by the main visitor's visit_* and depart_* methods; extensions do not raise (a BEFORE extension raising SkipNode is the extension pruning, not the main visitor)",
+    "what SkipChildren / SkipNode / SkipDeparture raised by a depart_ method should skip is not documented: the oracle asks only that the walk stays balanced and that they do not leave walkabout()",
     "SkipSiblings raised for the root of walkabout propagates to the caller (as in docutils); the model states this as `escape_iff`",
 ]
 EXPLANATION = ("Theorems over the model of visitor.py hold for all trees/actions/timings; the correspondence compares the "
